@@ -99,7 +99,7 @@ def sig(c):
 def run(ctx):
     quick = ctx.tier == 'quick'
     rnd = random.Random(ctx.seed)
-    text_ids = list(range(1, 17))
+    text_ids = list(range(1, 20))
     chains = ['none', 'identity', 'lower', 'filter', 'run', 'replace', 'seq']
     mems = ['1', 'len', 'len+1', 'default'] if quick else ['1', 'len', 'len+1', 'len-1', 'default']
     max_obs = 2 if quick else 3
